@@ -506,7 +506,8 @@ def run_stream(stream, seed, n, oracle_fns, shards=None, prep=None):
         if model[k] == "unmodelled":
             sr.drift += 1          # outside the modelled class: the oracle still judged the implementation above
         elif impl_cmp != model[k]:
-            if v == "unspec" and verd.get((k, "model")) == "unspec":
+            if v == "unspec" and (verd.get((k, "model")) == "unspec" or fn in getattr(PROPS, "FIRST_WORD_FNS", ())):
+                # outside the property (for end-to-end ops the "model" is the expected first word only)
                 sr.drift += 1
             else:
                 sr.diffs.append((o, impl[k], model[k], v))
